@@ -75,6 +75,19 @@ DROPPERS = ('::dedup', '::dedup_by', '::dedup_by_key', '::retain', '::retain_mut
             '::unique', '::sort', '::sort_unstable', '::sort_by', '::reverse', '::rev')
 
 
+_BLANK_TESTS = ('trim', 'trim_start', 'trim_end', 'is_empty', 'len', 'eq', 'ne', 'deref', 'not', 'as_ref', 'borrow')
+
+
+def _only_drops_blanks(P, cb, c):
+    """the predicate closure handed to the filter-like call at block c only tests emptiness (trim / is_empty / len / == "")"""
+    for a in cb.term(c)['args']:
+        for r in origins(cb, a):
+            if r[0] == 'closure' and P.bodies.get(r[1]) is not None:
+                kb = P.bodies[r[1]]
+                return all(callee_decl(t).split('::')[-1] in _BLANK_TESTS for _, t in kb.calls())
+    return False
+
+
 def statements_untouched(ck, m):
     """C20.h — see RULES"""
     from nl import locks
@@ -94,10 +107,12 @@ def statements_untouched(ck, m):
                 continue
             n += 1
             calls_, _params = locks.backward_slice(cb, a, control=True)
-            splits = [c for c in calls_ if callee_decl(cb.term(c)) in ('std::str::split', 'core::str::split') or callee_decl(cb.term(c)).endswith('str>::split')]
+            splits = [c for c in calls_ if callee_decl(cb.term(c)).split('::')[-1] in ('split', 'split_terminator') and 'str' in callee_decl(cb.term(c))]
             for c in sorted(calls_):
                 d = callee_decl(cb.term(c))
                 if d.endswith(DROPPERS) and not d.startswith(('core::str::', 'std::str::', 'std::string::')) and 'str>::' not in d:
+                    if d.split('::')[-1] in ('filter', 'retain', 'retain_mut', 'skip_while', 'take_while') and _only_drops_blanks(P, cb, c):
+                        continue      # dropping blank statements changes no entry: the loop pushes nothing for a blank one
                     bad.append('%s (%s)' % (d, cb.loc(c)))
             if not splits:
                 bad.append('the list handed to the loop does not come from a split of the body (%s)' % cb.loc(cbi))
